@@ -755,6 +755,10 @@ func C11(c *Ctx) {
 						}
 					}
 				}
+				// the type test may be the verdict of a boolean helper (`case isInterruption(err):`)
+				if !okMap && c11InterruptionVerdict(b, 0) {
+					okMap = true
+				}
 			}
 		}
 	}
@@ -838,6 +842,43 @@ func C11(c *Ctx) {
 	if n5 < 5 {
 		c.R.Break("C11-R5: expected at least 5 context hand-overs in core, found %d", n5)
 	}
+}
+
+// c11InterruptionVerdict: block b lies under the true answer of a boolean helper of the package that answers true
+// only under a successful type test for goja's InterruptedError.
+func c11InterruptionVerdict(b *ssa.BasicBlock, depth int) bool {
+	isTest := func(f flow.Fact) bool {
+		if ex, isEx := f.Cond.(*ssa.Extract); isEx && f.True && ex.Index == 1 {
+			if ta, isTA := ex.Tuple.(*ssa.TypeAssert); isTA && ssau.TypeIs(ta.AssertedType, gojaRuntime, "InterruptedError") {
+				return true
+			}
+		}
+		return false
+	}
+	for _, ci := range factCallTrueIdx(b) {
+		h := ci.call.Common().StaticCallee()
+		if h == nil || h.Blocks == nil || prog.PkgOf(h) != prog.PkgOf(b.Parent()) || depth > 2 {
+			continue
+		}
+		ri := ci.idx
+		if ri < 0 {
+			if h.Signature.Results().Len() != 1 {
+				continue
+			}
+			ri = 0
+		}
+		if trueImplies(h, ri, func(hb *ssa.BasicBlock, extra []flow.Fact) bool {
+			for _, f := range append(append([]flow.Fact{}, extra...), flow.FactsAt(hb)...) {
+				if isTest(f) {
+					return true
+				}
+			}
+			return c11InterruptionVerdict(hb, depth+1)
+		}) {
+			return true
+		}
+	}
+	return false
 }
 
 // provablyNonNilErr: an error value that cannot be nil: a package sentinel, or an error made on the spot.
